@@ -399,6 +399,34 @@ def run_ambig_index(ctx: Ctx) -> RuleResult:
     if not ok:
         res.finding(mcf, mcf.node, 'an in-place (LALR) child filter is selected under ambiguity %s: it reuses a child\'s list, which several '
                     'derivations share in an ambiguous forest' % sel_bad[:2], construct='inplace-under-ambiguity')
+    # ambiguity expansion: the alternatives of an _ambig child are its children only after nested _ambig nodes were
+    # flattened into it (an _ambig built by an inner expander can itself hold _ambig children)
+    ae = repo.func('lark.parse_tree_builder:AmbiguousExpander.__call__')
+    cparam = ae.positional_names()[0] if ae.positional_names() else 'children'
+    ok = False
+    flat = find_pat(ae.body_nodes(), "$c.expand_kids_by_data('_ambig')")
+    for call, b_ in flat:
+        loop = next((a for a in ancestors(call) if isinstance(a, ast.For)), None)
+        if loop is None or not find_pat([loop.iter], 'enumerate($ch)', {'ch': cparam}):
+            continue
+        if not (isinstance(loop.target, ast.Tuple) and len(loop.target.elts) == 2 and norm(loop.target.elts[1]) == b_['c']):
+            continue
+        guards = []
+        for a in ancestors(call):
+            if a is loop:
+                break
+            if isinstance(a, ast.If):
+                guards.append(a.test)
+        if all(find_pat([g], '$pred($c)', {'c': b_['c']}) for g in guards) and len(guards) <= 1:
+            uses = [n for n in ae.body_nodes() if isinstance(n, (ast.ListComp, ast.GeneratorExp)) and '.children' in norm(n)
+                    and n.lineno > loop.lineno]
+            ok = bool(uses)
+    res.ob('%s %s' % (ae.loc(), ae.qual), 'every _ambig child is flattened (nested _ambig merged into it) before its children are used as '
+                                           'alternatives', ok)
+    if not ok:
+        res.finding(ae, ae.node, 'AmbiguousExpander uses the children of an _ambig child as alternatives without first merging nested _ambig '
+                                 'nodes into it: a nested _ambig is then spliced in as if it were one derivation (unsound trees, lost derivations)',
+                    construct='ambig-flatten')
     esc = repo.func('lark.parse_tree_builder:ExpandSingleChild.__call__')
     body = ' '.join(norm(s) for s in esc.node.body)
     ok = 'if len(children) == 1' in body and 'return children[0]' in body
